@@ -5,6 +5,7 @@ package main
 import (
 	"fmt"
 	"go/token"
+	"go/types"
 	"os"
 	"strings"
 
@@ -55,6 +56,9 @@ func resultStored(ret *ssa.Return, i int) ssa.Value {
 func runC04(c *Ctx) {
 	c10LengthWord(c, c.Root(), "C04.reserve-write-link")
 	c04LookupGuard(c, c.Root(), "C04.duplicate-check")
+	// processes share a file only when they agree on its whole header (and so on every offset)
+	c09HeaderVerified(c, c.Root(), "C04.reserve-write-link")
+	c04OpenRejects(c, c.Root(), "C04.growth-vs-corruption")
 
 	m := c.Root()
 	c04AtomicOnly(c, m)
@@ -785,4 +789,89 @@ func c04LookupGuard(c *Ctx, m *Module, rule string) {
 			"a walk may be given up as cyclic only after more steps than the file can hold records: len(mapping.Data)/K, K ≤ 32; got "+shortDesc(d))
 	}
 	r.Check(rule, "lookup/has a cycle guard", m.Pos(lk.Pos()), n >= 1, "the chain walk must be bounded (a cyclic chain would hang the caller)")
+}
+
+// c04OpenRejects: openMapped turns a file away only because a system call failed or because the
+// file's header is not the one this process writes. A file that is merely short — empty, or left
+// by an opener that died between its two initial writes — is (re-)established, never refused:
+// refusing it would lock every surviving process out for the rest of the week.
+func c04OpenRejects(c *Ctx, m *Module, rule string) {
+	r := c.R
+	om := m.Func("internal/counter", "openMapped")
+	n := 0
+	for _, ex := range exitPaths(om) {
+		v := strip(refine(ex.vals[0], ex.facts))
+		if k, isC := v.(*ssa.Const); !isC || !k.IsNil() {
+			continue
+		}
+		n++
+		why := ""
+		for _, f := range ex.facts {
+			switch x := f.Cond.(type) {
+			case *ssa.BinOp:
+				// err != nil of some call
+				if (x.Op == token.NEQ && f.Pol || x.Op == token.EQL && !f.Pol) && isNilConst(x.Y) {
+					if _, isErr := x.X.Type().Underlying().(*types.Interface); isErr {
+						if dependsOnCall(x.X) {
+							why = "a call failed"
+						}
+					}
+				}
+			case *ssa.Call:
+				cn := calleeName(&x.Call)
+				if (cn == "bytes.Equal" || cn == "bytes.HasPrefix") && !f.Pol {
+					why = "header mismatch"
+				}
+			}
+		}
+		if why == "" {
+			// … or the file is still short after this call wrote the header and the reserved tail
+			nW := 0
+			for _, cs := range callsIn(om, "(*os.File).WriteAt") {
+				if ex.passes(cs) {
+					nW++
+				}
+			}
+			if nW >= 2 {
+				why = "still short after both initial writes"
+			}
+		}
+		r.Check(rule, fmt.Sprintf("openMapped/refusal #%d has a cause", n), m.Pos(ex.ret.Pos()), why != "",
+			"openMapped may fail only when a system call failed or the header differs; a short file is re-established, not refused")
+	}
+	r.Check(rule, "openMapped/refusals enumerated", m.Pos(om.Pos()), n >= 3, fmt.Sprintf("%d", n))
+}
+
+// dependsOnCall: v is (a phi of) error results of calls.
+func dependsOnCall(v ssa.Value) bool { return dependsOnCallS(v, map[ssa.Value]bool{}) }
+
+func dependsOnCallS(v ssa.Value, seen map[ssa.Value]bool) bool {
+	if seen[v] {
+		return true
+	}
+	seen[v] = true
+	switch x := strip(v).(type) {
+	case *ssa.Extract:
+		_, ok := x.Tuple.(*ssa.Call)
+		return ok
+	case *ssa.Call:
+		return true
+	case *ssa.Phi:
+		for _, e := range x.Edges {
+			if !isNilConst(e) && !dependsOnCallS(e, seen) {
+				return false
+			}
+		}
+		return true
+	case *ssa.UnOp:
+		if a, ok := x.X.(*ssa.Alloc); ok && x.Op == token.MUL {
+			for _, u := range referrers(a) {
+				if st, ok := u.(*ssa.Store); ok && st.Addr == ssa.Value(a) && !isNilConst(st.Val) && !dependsOnCallS(st.Val, seen) {
+					return false
+				}
+			}
+			return true
+		}
+	}
+	return false
 }
